@@ -205,7 +205,7 @@ def rng(prog, an=None, files=None, table=None):
                     if c in dom[w[0]]:
                         checked = cn
                         for x in walk(cn):
-                            if x['k'] == 'CallExpr' and any(ps.value_keys(fn, a) & rk for a in call_args(x)):
+                            if x['k'] == 'CallExpr' and ps.callee(x) not in ps.EVAL and any(ps.value_keys(fn, a) & rk for a in call_args(x)):
                                 via_call = x
                         break
                     anywhere = anywhere or cn
@@ -217,7 +217,7 @@ def rng(prog, an=None, files=None, table=None):
                     if cn is None or not any(s_ in dead for s_ in bb['s'] if s_ is not None):
                         continue
                     for x in walk(cn):
-                        if x['k'] == 'CallExpr' and any(ps.value_keys(fn, a) & rk for a in call_args(x)):
+                        if x['k'] == 'CallExpr' and ps.callee(x) not in ps.EVAL and any(ps.value_keys(fn, a) & rk for a in call_args(x)):
                             checked = cn
                             via_call = x
             if checked is None and anywhere is not None:
@@ -229,7 +229,7 @@ def rng(prog, an=None, files=None, table=None):
                         tests.add(c)
                     elif cn_ is not None and any(s_ in dead for s_ in bb['s'] if s_ is not None):
                         for x in walk(cn_):
-                            if x['k'] == 'CallExpr' and any(ps.value_keys(fn, a) & rk for a in call_args(x)):
+                            if x['k'] == 'CallExpr' and ps.callee(x) not in ps.EVAL and any(ps.value_keys(fn, a) & rk for a in call_args(x)):
                                 tests.add(c)
                 if p2 is None:
                     p2 = ps.pass2_blocks(fn)
